@@ -15,11 +15,12 @@ def kindLetter : Kind → String
   | .array => "A" | .list => "L" | .bag => "B" | .set => "S"
 
 def showTy : Ty → String
-  | .simple t => toString t
+  | .simple t => if t ≥ 100 then s!"s{t - 100}" else toString t
   | .agg k b => kindLetter k ++ showTy b
 
 def parseTyChars : List Char → Option Ty
-  | [d] => if d.isDigit && d.toNat - '0'.toNat < 6 then some (.simple (d.toNat - '0'.toNat)) else none
+  | [d] => if d.isDigit && d.toNat - '0'.toNat < 8 then some (.simple (d.toNat - '0'.toNat)) else none
+  | 's' :: rest => (String.ofList rest).toNat?.bind (fun m => if m < 256 then some (.simple (100 + m)) else none)
   | k :: rest =>
     match k, parseTyChars rest with
     | 'A', some b => some (.agg .array b) | 'L', some b => some (.agg .list b)
@@ -46,11 +47,11 @@ def parseHi (s : String) : Option (Option Int) :=
 def parseOp : List String → Option Op
   | ["set", i, t, v] => do
     let i ← i.toInt?; let t ← parseTy t; let v ← v.toNat?
-    if t = .simple 5 then none else pure (.set i ⟨t, v⟩)      -- NUMBER has no values of its own
+    if !plainBase t then none else pure (.set i ⟨t, v⟩)      -- NUMBER and SELECTs have no values of their own
   | ["get", i] => do let i ← i.toInt?; pure (.get i)
   | ["add", t, v] => do
     let t ← parseTy t; let v ← v.toNat?
-    if t = .simple 5 then none else pure (.add ⟨t, v⟩)
+    if !plainBase t then none else pure (.add ⟨t, v⟩)
   | ["size"] => some .size | ["hiindex"] => some .hiindex | ["loindex"] => some .loindex
   | ["hibound"] => some .hibound | ["lobound"] => some .lobound | ["unique"] => some .unique
   | _ => none
@@ -104,10 +105,10 @@ def handle (useSpec : Bool) (p : Proc) (line : String) : Proc × String :=
   | ["fits", k, lo, hi, k', lo', hi'] =>      -- may a `K [lo:hi] OF REAL` element stand where `K' [lo':hi'] OF REAL` is declared?
     match parseKind k, lo.toInt?, parseHi hi, parseKind k', lo'.toInt?, parseHi hi' with
     | some k, some lo, some hi, some k', some lo', some hi' =>
-      let x : Aggregate.BTy := .agg k lo hi (.simple 2)
-      let e : Aggregate.BTy := .agg k' lo' hi' (.simple 2)
+      let x : BTy := .agg k lo hi (.simple 2)
+      let e : BTy := .agg k' lo' hi' (.simple 2)
       if useSpec then (p, if Aggregate.specializes x e then "ok" else "refused")
-      else (p, if checkType ⟨Aggregate.eraseBounds x, 1⟩ (Aggregate.eraseBounds e) then "ok" else "refused")
+      else (p, if elementAccepted x e then "ok" else "refused")
     | _, _, _, _, _, _ => (p, "bad-op")
   | ["bi", f] =>                       -- a built-in function of Builtin.py applied to the current container
     match parseBFn f, parseSpecFn f, p.get with
